@@ -213,9 +213,9 @@ def parseSeed (q : Question) (s : String) : Option ((CacheKey × List Rec) × Bo
   let scope ← parseScope sc
   let recs ← parseRecs rs
   let (n, t) ← match sel with
-    | "s" => some (canonName q.name, q.qtype)
+    | "s" => some (cacheName q.name, q.qtype)
     | "o" => some ("other.test.".toList, q.qtype)
-    | "t" => some (canonName q.name, (q.qtype + 1) % 65536)
+    | "t" => some (cacheName q.name, (q.qtype + 1) % 65536)
     | _ => none
   pure ((⟨n, t, scope, 1⟩, recs), st)
 
@@ -387,8 +387,8 @@ def handleLine (st : St) (line : String) : St × String :=
         if st.explain then
           let q' := q?.getD noQuestion
           let sel := requestSelect cfg q'
-          let fam := (cache0.filter fun e => e.1.name == canonName q'.name && e.1.qtype == q'.qtype).length
-          let key : UpRef → CacheKey := fun u => ⟨canonName q'.name, q'.qtype, scopeOf dst u, q'.qclass⟩
+          let fam := (cache0.filter fun e => e.1.name == cacheName q'.name && e.1.qtype == q'.qtype).length
+          let key : UpRef → CacheKey := fun u => ⟨cacheName q'.name, q'.qtype, scopeOf dst u, q'.qclass⟩
           let hit := match sel with
             | .to u => (cache0.lookup (key u)).isSome
             | _ => false
